@@ -19,6 +19,26 @@ struct Var {
     hi: i64,
 }
 
+/// f := f + 0 * x_id in the linear part of the message
+fn add_zero_term(f: &mut Option<v1::Function>, id: u64) {
+    use v1::function::Function as F;
+    let mut g = f.take().unwrap_or_else(|| crate::mk::fconst(0.0));
+    match &mut g.function {
+        Some(F::Linear(l)) => l.terms.push(crate::mk::term(id, 0.0)),
+        Some(F::Quadratic(q)) => match &mut q.linear {
+            Some(l) => l.terms.push(crate::mk::term(id, 0.0)),
+            None => q.linear = Some(crate::mk::linear(vec![(id, 0.0)], 0.0)),
+        },
+        Some(F::Polynomial(p)) => p.terms.push(crate::mk::monomial(vec![id], 0.0)),
+        Some(F::Constant(k)) => {
+            let k = *k;
+            g = crate::mk::flin(crate::mk::linear(vec![(id, 0.0)], k));
+        }
+        _ => g = crate::mk::flin(crate::mk::linear(vec![(id, 0.0)], 0.0)),
+    }
+    *f = Some(g);
+}
+
 fn lattice(vars: &[Var]) -> Vec<Vec<(u64, i64)>> {
     let mut out: Vec<Vec<(u64, i64)>> = vec![vec![]];
     for v in vars {
@@ -53,7 +73,7 @@ impl Property for C13 {
          oracle = brute force over EVERY lattice point of the box and EVERY integer slack value in the new variable's bounds, in exact rational arithmetic; non-trivial = converted, >=2 variables, both feasible and infeasible lattice points; distinct = sha256(instance, call)"
     }
     fn required_labels(&self) -> Vec<String> {
-        ["outcome=converted", "outcome=relaxed", "outcome=infeasible", "outcome=range-exceeded", "reject=unknown-id", "reject=equality", "reject=continuous", "reject=undefined-variable", "reject=infinite-range", "rational-coeff", "quadratic", "op=convert", "op=add-slack", "other-constraints", "negative-box", "binary-variable", "unsorted-variable-list", "limit=needed", "limit=needed-1", "second-conversion", "integer-linear-max-exactly-zero", "binary-fixed-by-bound", "one-hot-hint-of-relaxed-constraint"].iter().map(|s| s.to_string()).collect()
+        ["outcome=converted", "outcome=relaxed", "outcome=infeasible", "outcome=range-exceeded", "reject=unknown-id", "reject=equality", "reject=continuous", "reject=undefined-variable", "reject=infinite-range", "rational-coeff", "quadratic", "op=convert", "op=add-slack", "other-constraints", "negative-box", "binary-variable", "unsorted-variable-list", "limit=needed", "limit=needed-1", "second-conversion", "integer-linear-max-exactly-zero", "binary-fixed-by-bound", "one-hot-hint-of-relaxed-constraint", "reject=continuous-with-zero-coefficient"].iter().map(|s| s.to_string()).collect()
     }
     fn cases(&self, tier: Tier) -> usize {
         match tier {
@@ -293,6 +313,20 @@ impl Property for C13 {
             2 => {
                 inst.constraints.iter_mut().find(|c| c.id == cid).unwrap().equality = EQ_ZERO;
                 ctx.label("reject=equality");
+            }
+            3 if linear && t.p(90) => {
+                // a continuous variable that occurs in the message only with an explicit zero coefficient: it is still a
+                // variable of the function (C01: the ids occurring in the message)
+                let zid: u64 = 600;
+                let mut z = v1::DecisionVariable::default();
+                z.id = zid;
+                z.kind = KIND_CONTINUOUS;
+                z.bound = Some(crate::mk::bound(0.0, 2.5));
+                inst.decision_variables.push(z);
+                let c = inst.constraints.iter_mut().find(|c| c.id == cid).unwrap();
+                add_zero_term(&mut c.function, zid);
+                ctx.label("reject=continuous");
+                ctx.label("reject=continuous-with-zero-coefficient");
             }
             3 => {
                 // a continuous variable that f uses
